@@ -1,6 +1,7 @@
 from __future__ import annotations
 
 import sys
+import uuid
 from functools import partial
 from hashlib import sha256
 from os.path import dirname
@@ -56,6 +57,9 @@ BOOLEAN_HTML_ATTRIBUTES = [
 ]
 
 
+_PROCESS_TOKEN = uuid.uuid4().hex
+
+
 def _stable_repr(value: Any) -> str:
     """Process-independent representation of a configuration value."""
 
@@ -73,11 +77,14 @@ def _stable_repr(value: Any) -> str:
     module = getattr(value, '__module__', None)
     name = getattr(value, '__qualname__', getattr(value, '__name__', None))
     if isinstance(module, str) and isinstance(name, str):
-        if '<locals>' in name:
-            # Made by a function: the name does not identify it (two
-            # classes returned by one factory have the same), only the
-            # object itself does - within this process.
-            return "{}.{}@{:x}".format(module, name, id(value))
+        if '<locals>' in name or '<lambda>' in name:
+            # Made by a function, or anonymous: the name does not
+            # identify it (two classes returned by one factory have the
+            # same), only the object itself does - within this process.
+            # Another process may well have another object at the same
+            # address, hence the per-process token.
+            return "{}.{}@{}:{:x}".format(
+                module, name, _PROCESS_TOKEN, id(value))
         return "{}.{}".format(module, name)
     return repr(value)
 
